@@ -34,3 +34,25 @@ def canary(run, oid):
   import z3
 
   return run.obligation(oid, z3.BoolVal(False), expect="refutable", kind="vacuity-canary")
+
+
+def native_cmd(what, model, masked=True, sig=None):
+  """command line of scenarios/replay_native.py for a counter-model (dict name -> value string)"""
+
+  def num(name):
+    try:
+      return int(str(model.get(name)).replace("(- ", "-").replace(")", "").replace(" ", ""))
+    except Exception:
+      return None
+
+  cmd = ["VENV_PYTHON", "scenarios/replay_native.py", what]
+  for k in ("nq", "nv", "nu", "na", "nmocap", "nuserdata", "neq", "nhistory", "nkey", "nbody"):
+    v = num("m." + k)
+    if v is not None:
+      cmd += ["--" + k, str(v)]
+  if sig is None:
+    sig = num("sig")
+  if sig is not None:
+    cmd += ["--sig", str(sig)]
+  cmd += ["--masked", "1" if masked else "0"]
+  return cmd
